@@ -18,8 +18,8 @@ if [ ! -x "$C/$H/e1" ]; then
   rm -rf "$W/repo"
   mkdir -p "$C/$H"
   mv "$W/e1" "$W/e1native" "$W/rewrites.json" "$C/$H/"
-  # keep the eight most recent builds, and any build still in use
-  for d in $(ls -1dt "$C"/*/ 2>/dev/null | grep -v -e build. -e /seq/ | tail -n +9); do
+  # keep the sixteen most recent builds, and any build still in use
+  for d in $(ls -1dt "$C"/*/ 2>/dev/null | grep -v -e build. -e /seq/ | tail -n +17); do
     # never remove a build that a (long) run is still executing
     pgrep -f "${d%/}/e1" >/dev/null 2>&1 || rm -rf "$d"
   done
